@@ -23,6 +23,36 @@ import base64, collections, functools, hashlib, json, logging, math, platform, r
 import six  # noqa
 import six.moves.urllib.parse  # noqa
 
+# Trampolines installed BEFORE lomond is imported: whichever way lomond binds these names (module attribute or
+# from-import), the harness can redirect them while a simulated world is installed; otherwise they are the real thing.
+import os as _os
+import random as _random_mod
+import time as _time_mod
+REAL = dict(time=_time_mod.time, random=_random_mod.random, urandom=_os.urandom)
+HOOKS = dict(time=None, random=None, urandom4=None)
+
+
+def _tramp_time():
+    h = HOOKS['time']
+    return h() if h is not None else REAL['time']()
+
+
+def _tramp_random():
+    h = HOOKS['random']
+    return h() if h is not None else REAL['random']()
+
+
+def _tramp_urandom(n):
+    h = HOOKS['urandom4']
+    if h is not None and n == 4:
+        return h()
+    return REAL['urandom'](n)
+
+
+_time_mod.time = _tramp_time
+_random_mod.random = _tramp_random
+_os.urandom = _tramp_urandom
+
 _SCHED_IMPORT = os.environ.get('VF_SCHED_IMPORT') == '1'
 if _SCHED_IMPORT:
     from .schedlock import patched_threading_factories as _ptf
